@@ -6,29 +6,41 @@ from . import core, httpgen as hg, grpc_gen as gg
 INVS = "AcceptedOnlyIfNumbered WellFormed NotInMessage LocationPartition DeliveredIntact InvokedIffValid ResultIntact ResponsePartition ClientRejectsInvalidResult"
 DEVIATIONS = ["int.narrowed_to_32_bits", "validate.absent_collection_length",
               "tags.oneof_members_unchecked", "tags.unchecked_with_metadata", "tags.nested_types_unchecked",
-              "message.explicit_loses_required"]      # the last one is hypothetical (vacuity guard of the explicit-message family)
+              "message.explicit_loses_required",      # hypothetical (vacuity guard of the explicit-message family)
+              "number.oneof_alias_member_lost"]       # hypothetical (vacuity guard of the composed nestings)
 # the family in which each deviation shows (vacuity runs)
 DEV_FAMILY = {"int.narrowed_to_32_bits": "req", "validate.absent_collection_length": "res", "tags.oneof_members_unchecked": "wf",
-              "tags.unchecked_with_metadata": "wf", "tags.nested_types_unchecked": "wf", "message.explicit_loses_required": "xm"}
+              "tags.unchecked_with_metadata": "wf", "tags.nested_types_unchecked": "wf", "message.explicit_loses_required": "xm",
+              "number.oneof_alias_member_lost": "wf"}
 
 
-def gen_vectors(ctx, fam, deviations="{}", label=None):
+def gen_vectors(ctx, fam, deviations="{}", label=None, depth="2"):
     cfg = "gen/Gen_GRPCTransport.cfg" if deviations == "{}" else "gen/Gen_GRPCTransport_dev.cfg"
-    r = ctx.gen("mc/MC_GRPCTransport", cfg, consts={"Family": '"%s"' % fam, "Deviations": deviations},
+    r = ctx.gen("mc/MC_GRPCTransport", cfg, consts={"Family": '"%s"' % fam, "Deviations": deviations, "PathDepth": depth},
                 label=label or ("Gen %s" % fam), timeout=1500)
     return r.vectors
 
 
 def sample_shapes(vectors, frac, seed):
-    """Keep every vector of a deterministic pseudo-random subset of the method shapes."""
+    """Keep every vector of a deterministic pseudo-random subset of the method shapes - and, of every composed
+    nesting (a path of two or more steps), at least the shape the seed ranks first, so that no nesting TLC
+    enumerates goes unexercised in a tier that samples."""
     if frac >= 1.0:
         return vectors
-    keep = []
-    for v in vectors:
+
+    def rank(v):
         h = hashlib.sha1((gg.shape_key(v) + str(seed)).encode()).digest()
-        if (h[0] * 256 + h[1]) / 65536.0 < frac:
-            keep.append(v)
-    return keep
+        return (h[0] * 256 + h[1]) / 65536.0
+    first = {}
+    for v in vectors:
+        for a in (v["pa"], v["ra"]):
+            if gg.composed(a):
+                k = "/".join(gg.path_of(a))
+                r = (rank(v), gg.shape_key(v))
+                if k not in first or r < first[k]:
+                    first[k] = r
+    forced = {r[1] for r in first.values()}
+    return [v for v in vectors if rank(v) < frac or gg.shape_key(v) in forced]
 
 
 class Family:
@@ -52,7 +64,8 @@ class Family:
         if broken:
             n = len(designs)
             designs, where = gg.isolate_designs(self.shapes, designs, where, broken)
-            ctx.log("%s: %d designs failed in eval/gen, their methods isolated in %d more designs" % (fam, len(broken), len(designs) - n))
+            ctx.log("%s: %d designs failed in eval/gen, their methods isolated in %d more designs (%s)" % (
+                fam, len(broken), len(designs) - n, "; ".join(sorted({str(pl.failed[i][:2]) + " " + str(pl.failed[i][2])[:90].replace("\n", " ") for i in broken}))))
         pl.prepare(designs)
         ctx.log("%s: generated and compiled %d designs" % (fam, len(designs)))
         self.run_needed = fam != "wf"
@@ -100,7 +113,11 @@ def run_family(ctx, fam, vectors, per_design=40, rng=None, label=None):
 
 
 def attr_tag(a):
-    return "%s/%s%s/%s/%s/%s" % (a["loc"], a["kind"], "" if a["w"] == "n" else a["w"], a["nest"], a["mode"], a["rule"])
+    nest = ".".join(gg.path_of(a)) if gg.composed(a) else a["nest"]
+    return "%s/%s%s/%s/%s/%s" % (a["loc"], a["kind"], "" if a["w"] == "n" else a["w"], nest, a["mode"], a["rule"])
+
+
+with_path = gg.with_path
 
 
 def val_tag(v):
@@ -110,7 +127,7 @@ def val_tag(v):
 def short_case(c):
     v = c["v"]
     o = c.get("obs") or {}
-    return {"vector": {k: v.get(k) for k in ("fam", "pa", "ra", "stream", "tagmode", "withmd", "explicit", "raw", "pv", "rv", "allow")},
+    return {"vector": {k: v.get(k) for k in ("fam", "pa", "ra", "stream", "tagmode", "withmd", "explicit", "raw", "shared", "pv", "rv", "allow")},
             "sent": c.get("sent"), "rsent": c.get("rsent"), "accepted": c["accepted"], "evalErrors": c["evalErrors"], "gen": c["gen"], "genDetail": c["genDetail"],
             "descriptorOK": c["descriptorOK"], "descriptorError": c["descriptorError"], "table": c["table"],
             "observed": {k: o[k] for k in o if not k.endswith("_raw")}, "delivered_raw": o.get("delivered_raw"), "returned_raw": o.get("returned_raw"),
@@ -279,8 +296,8 @@ def obs_sig(c):
 def trace_events(c, devs):
     """The case as a sequence of trace events for Trace_GRPCTransport.tla (None: the case has no complete record)."""
     v, o, t = c["v"], c["obs"], c["table"]
-    evs = [{"ev": "reset", "pa": v["pa"], "ra": v["ra"], "stream": v["stream"], "tagmode": v["tagmode"], "withmd": v["withmd"],
-            "explicit": v.get("explicit", False), "raw": v.get("raw", False), "pv": v["pv"], "rv": v["rv"], "devs": devs, "case": c["id"]},
+    evs = [{"ev": "reset", "pa": with_path(v["pa"]), "ra": with_path(v["ra"]), "stream": v["stream"], "tagmode": v["tagmode"], "withmd": v["withmd"],
+            "explicit": v.get("explicit", False), "raw": v.get("raw", False), "shared": v.get("shared", False), "pv": v["pv"], "rv": v["rv"], "devs": devs, "case": c["id"]},
            {"ev": "eval", "accepted": c["accepted"]}]
     if not c["accepted"]:
         return evs
@@ -314,22 +331,27 @@ class Explainer:
     the real code was observed to?  One TLC run (Explain_GRPCTransport) over the mismatching cases x candidate
     deviation sets."""
 
-    def __init__(self, ctx, fam):
-        self.ctx, self.fam = ctx, fam
+    def __init__(self, ctx, fam, depth="2"):
+        self.ctx, self.fam, self.depth = ctx, fam, depth
         self.table = None
         self.devsets = [[d] for d in DEVIATIONS] + [[d1, d2] for i, d1 in enumerate(DEVIATIONS) for d2 in DEVIATIONS[i + 1:]]
 
     def prepare(self, vectors):
-        self.table = {}
+        """Adds the cases not asked about before (one TLC run for all of them); what is known stays known."""
+        if self.table is None:
+            self.table, self.known = {}, set()
         uniq = {}
         for v in vectors:
-            uniq[case_key(v)] = v
+            if case_key(v) not in self.known:
+                uniq[case_key(v)] = v
         if not uniq:
             return
-        cases = "".join(json.dumps({"pa": v["pa"], "ra": v["ra"], "stream": v["stream"], "tagmode": v["tagmode"], "withmd": v["withmd"],
-                                    "explicit": v.get("explicit", False), "raw": v.get("raw", False), "pv": v["pv"], "rv": v["rv"]}) + "\n" for v in uniq.values())
+        self.known |= set(uniq)
+        cases = "".join(json.dumps({"pa": with_path(v["pa"]), "ra": with_path(v["ra"]), "stream": v["stream"], "tagmode": v["tagmode"], "withmd": v["withmd"],
+                                    "explicit": v.get("explicit", False), "raw": v.get("raw", False), "shared": v.get("shared", False),
+                                    "pv": v["pv"], "rv": v["rv"]}) + "\n" for v in uniq.values())
         devsets = "".join(json.dumps({"devs": d}) + "\n" for d in self.devsets)
-        r = self.ctx.gen("mc/MC_GRPCTransport_Explain", "mc/MC_GRPCTransport_Explain.cfg", consts={"Family": '"%s"' % self.fam},
+        r = self.ctx.gen("mc/MC_GRPCTransport_Explain", "mc/MC_GRPCTransport_Explain.cfg", consts={"Family": '"%s"' % self.fam, "PathDepth": self.depth},
                          files={"cases.ndjson": cases, "devsets.ndjson": devsets},
                          label="Explain %s (%d cases x %d deviation sets)" % (self.fam, len(uniq), len(self.devsets)), timeout=1500)
         for v in r.vectors:
@@ -338,8 +360,7 @@ class Explainer:
 
     def explain(self, c, focus=None):
         v = c["v"]
-        if self.table is None:
-            self.prepare([v])
+        self.prepare([v])
         want = obs_sig(c)
         ck = case_key(v)
 
